@@ -1051,7 +1051,9 @@ func tamper(c *core.Ctx, w *world, l *gen.LSXG) (*signedexchange.Exchange, strin
 			e.ResponseHeaders[k] = vs
 		case "header-add":
 			// (names include the one header the format carries outside the signed map)
-			if nh := c.PickDict("field.newhdr", []string{"X-Injected", "Content-Security-Policy", "Link", "Signature", "signature", "SIGNATURE", "Digest2", "Content-Encoding2"}, core.HeaderNameRe); c.Bool("field.newhdrDirect") {
+			if nh := c.PickDict("field.newhdr", []string{"X-Injected", "Content-Security-Policy", "Link", "Signature", "signature", "SIGNATURE", "Digest2", "Content-Encoding2",
+				// (names shaped like the pseudo-headers the format writes itself)
+				":x-injected", ":path", ":method", ":status", ":authority", ":url"}, core.HeaderNameRe); c.Bool("field.newhdrDirect") {
 				e.ResponseHeaders[nh] = append(e.ResponseHeaders[nh], "evil")
 			} else {
 				e.ResponseHeaders.Add(nh, "evil")
@@ -1073,7 +1075,7 @@ func tamper(c *core.Ctx, w *world, l *gen.LSXG) (*signedexchange.Exchange, strin
 			if e.RequestHeaders == nil {
 				e.RequestHeaders = http.Header{}
 			}
-			e.RequestHeaders.Add(c.PickDict("field.newreqhdr", []string{"X-Req-Injected", "Signature", "signature", "Accept"}, core.HeaderNameRe), "1")
+			e.RequestHeaders.Add(c.PickDict("field.newreqhdr", []string{"X-Req-Injected", "Signature", "signature", "Accept", ":x-injected", ":path", ":status", ":authority"}, core.HeaderNameRe), "1")
 		case "payload-bit":
 			if len(e.Payload) == 0 {
 				e.Payload = []byte{0}
